@@ -520,7 +520,8 @@ VALUE = st.one_of(
 # simfiles and SSC charts: also None (what a key-only parameter such as '#STOPS;' loads as - present, without a value) and
 # values holding carriage returns (what Windows-authored multi-line values load as)
 VALUE_ANY = st.one_of(VALUE, VALUE, VALUE, st.none(), st.sampled_from(["a\rb", "x\r\ny", "1\r\n,2"]))
-UNRELATED = ["OTHER", "FOO", "BGCHANGES2", "STOPS2", "NOTES3"]
+# the last ones: upper-case spellings of attribute and method names of the objects - still just unrelated keys
+UNRELATED = ["OTHER", "FOO", "BGCHANGES2", "STOPS2", "NOTES3", "EXTRADATA", "ITEMS", "KEYS", "GET", "SERIALIZE", "BLANK", "CHARTS", "POP"]
 
 
 def _key_pools(kind):
@@ -668,7 +669,7 @@ def parts(tier):
     depth = 5 if q else 6
     out = [
         {"name": "one-step", "kind": "enum", "iter": _state_iter(("sm", "ssc", "sscchart"), "one-step", vals, others, depth), "exhaustive": True},
-        {"name": "smchart-step", "kind": "enum", "iter": _state_iter(("smchart",), "smchart-step", ["v", ""], ["FOO"], depth, all_vias=not q), "exhaustive": True},
+        {"name": "smchart-step", "kind": "enum", "iter": _state_iter(("smchart",), "smchart-step", ["v", ""], ["FOO", "EXTRADATA"], depth, all_vias=not q), "exhaustive": True},
     ]
     for kind in KINDS:
         out.append({"name": "machine-" + kind, "kind": "machine", "factory": (lambda k=kind: machine_factory(k)),
